@@ -8,7 +8,7 @@ TRUSTED = ["a fake device on 127.<pid>.<pid>.k:9957 / 10000 counts open connecti
            "behaviour, outside the property's claim); peer resets are outside the modelled faults"]
 ASSUMPTIONS = ["'operation raises' is a state query answered with garbage (RuntimeError); 'refused' is a closed listening port"]
 RULE = ("action sequences over {connect (device listening / not), disconnect, operation (returns / raises), async-with (listening / not, "
-        "body returns / raises)} for both API classes: every sequence of length <= 3 (584 per class) and random ones of length 4..8 "
+        "body returns / raises KeyError, TimeoutError, ConnectionResetError or is cancelled)} for both API classes: every sequence of length <= 3 (584 per class) and random ones of length 4..8 "
         "(thorough: every sequence of length <= 4); after every action: connected flag, device-side open connections, EOFs seen; "
         "non-trivial = distinct sequences with a successful connect")
 REQUIREMENT = ("connected is True exactly after a successful connect / inside the context and False after disconnect, leaving the context "
@@ -47,13 +47,21 @@ async def run_seq(cls, dev, acts, ip):
                 await dev.listen(bool(f))
                 async with api:
                     if k == 4: raise KeyError("body")
-        except (OSError, RuntimeError, KeyError): o = "!"
-        await settle(); gc.collect(); await settle()
+                    if k == 5: raise asyncio.TimeoutError("body timed out")      # an OSError subclass since Python 3.11
+                    if k == 6: raise ConnectionResetError("body lost its peer")
+                    if k == 7: raise asyncio.CancelledError()
+        except (OSError, RuntimeError, KeyError, asyncio.CancelledError): o = "!"
+        await settle()
+        if k == 0 or k >= 3: gc.collect(); await settle()
         out += ("C" if api.connected else "c") + "%d,%d" % (dev.open, dev.eofs) + o + "|"
     try: await api.disconnect()
     except Exception: pass
     await settle()
     return out
+
+
+NAMES = ["connect", "disconnect", "operation", "with", "with-body-raising-KeyError", "with-body-raising-TimeoutError",
+         "with-body-raising-ConnectionResetError", "with-body-cancelled"]
 
 
 def spec_judge(acts, text):
@@ -65,12 +73,12 @@ def spec_judge(acts, text):
             if f: must = True
             elif o != "!": return "a refused connect did not raise (%s)" % st
         elif k == 1: must = False
-        elif k in (3, 4):
+        elif k >= 3:
             if f: must = False
             elif o != "!": return "entering the context against a closed port did not raise (%s)" % st
-        if flag != must and not (k in (0, 3, 4) and not f): return "connected is %s where it must be %s after %s (%s)" % (flag, must, ["connect", "disconnect", "operation", "with", "with-raising"][k], st)
-        if k in (0, 3, 4) and not f: must = flag      # a refused connect while connected: the property only covers the disconnected state
-        if (k == 1 or (k in (3, 4) and f)) and open_ != 0: return "after the disconnect the device still holds %d open connection(s) (%s)" % (open_, st)
+        if flag != must and not ((k == 0 or k >= 3) and not f): return "connected is %s where it must be %s after %s (%s)" % (flag, must, NAMES[k], st)
+        if (k == 0 or k >= 3) and not f: must = flag      # a refused connect while connected: the property only covers the disconnected state
+        if (k == 1 or (k >= 3 and f)) and open_ != 0: return "after the disconnect the device still holds %d open connection(s) (%s)" % (open_, st)
     return "ok"
 
 
@@ -82,7 +90,7 @@ def run_sequences(out, stream, cls, seqs):
         return res
     io = asyncio.run(go())
     mo = lib.run_model([lib.req("client", [[k, f] for k, f in s]) for s in seqs])
-    names = ["connect", "disconnect", "operation", "with", "with-raising-body"]
+    names = NAMES
     cases = [{"cls": cls.__name__, "acts": [list(a) for a in s]} for s in seqs]
     lib.differential(out, stream, cases, io, mo, ["ok"] * len(cases), lambda c: c["cls"] + ": " + ", ".join("%s(%d)" % (names[k], f) for k, f in c["acts"]),
                      nontrivial=lambda c: any((k == 0 or k >= 3) and f for k, f in c["acts"]), sample=lambda c: c, classify=lambda c, i: c["cls"] + "/len%d" % len(c["acts"]),
@@ -91,10 +99,12 @@ def run_sequences(out, stream, cls, seqs):
 
 def run(tier, rnd, out):
     alphabet = [(0, 1), (0, 0), (1, 0), (2, 0), (2, 1), (3, 1), (3, 0), (4, 1)]
+    wide = alphabet + [(5, 1), (6, 1), (7, 1), (4, 0), (5, 0)]
     by = {"SwitcherType1Api": SwitcherType1Api, "SwitcherType2Api": SwitcherType2Api}
     for c in lib.load_corpus("C18"): run_sequences(out, "corpus", by[c["cls"]], [[tuple(a) for a in c["acts"]]])
     seqs = [list(s) for L in ((1, 2, 3) if tier == "quick" else (1, 2, 3, 4)) for s in itertools.product(alphabet, repeat=L)]
-    seqs += [[rnd.choice(alphabet) for _ in range(rnd.randrange(4, 9))] for _ in range(100 if tier == "quick" else 1500)]
+    seqs += [[rnd.choice(alphabet) for _ in range(rnd.randrange(4, 9))] for _ in range(60 if tier == "quick" else 1500)]
+    seqs += [[a, b] for a in wide for b in wide] + [[rnd.choice(wide) for _ in range(rnd.randrange(3, 7))] for _ in range(60 if tier == "quick" else 1500)]
     for cls in (SwitcherType1Api, SwitcherType2Api): run_sequences(out, "sequences", cls, seqs)
     out.exhaustive = True
     out.notes.append("exhaustive over all action sequences up to length %d for both classes" % (3 if tier == "quick" else 4))
